@@ -25,6 +25,12 @@ class Livelock(Exception):
     pass
 
 
+class WorkerDeath(BaseException):
+    """raised inside a controlled worker to model a hard process death (kill -9, segfault, OOM): the worker disappears while holding the
+    item it has just dequeued; nothing it would have done afterwards happens.  It is raised from Queue.get, i.e. outside any try block of
+    the code under test that guards the job itself."""
+
+
 class _Thread(object):
     def __init__(self, sched, tid, target, args, is_worker):
         self.sched, self.tid, self.target, self.args = sched, tid, target, args
@@ -50,8 +56,9 @@ class _Thread(object):
 
 
 class Scheduler(object):
-    def __init__(self, choices=(), horizon=100000):
+    def __init__(self, choices=(), horizon=100000, fatal=None):
         self.choices = list(choices)
+        self.fatal = fatal           # predicate on a dequeued item: the worker that dequeues it dies
         self.threads = []
         self.points = []             # list of dict(enabled=[tids], chosen=tid, running_enabled=bool, state=hash)
         self.sched_sem = threading.Semaphore(0)
@@ -162,6 +169,9 @@ class FakeQueue(object):
         self.sched.point('get', lambda: len(self.items) > 0)
         item = self.items.popleft()
         self.sched.current.hand = item
+        if self.sched.fatal is not None and self.sched.current.is_worker and self.sched.fatal(item):
+            self.sched.current.hand = ('died_with', repr(item))
+            raise WorkerDeath(repr(item))
         return item
 
 
@@ -235,10 +245,10 @@ def patched_multiprocessing(sched):
             del sys.modules['multiprocessing']
 
 
-def run_once(body, choices=(), horizon=100000):
+def run_once(body, choices=(), horizon=100000, fatal=None):
     """run `body()` (which uses multiprocessing) under the controlled scheduler with the given choice prefix.
     returns (result_or_exception, scheduler)"""
-    sched = Scheduler(choices, horizon)
+    sched = Scheduler(choices, horizon, fatal)
     box = {}
 
     def main():
@@ -255,7 +265,7 @@ def run_once(body, choices=(), horizon=100000):
             return ('raised', e), sched
 
 
-def explore(body, check, preemption_bound=None, stateful=True, max_executions=None, horizon=100000):
+def explore(body, check, preemption_bound=None, stateful=True, max_executions=None, horizon=100000, fatal=None):
     """systematic exploration.  check(outcome, sched, choices) is called for every complete execution.
     returns dict(executions, states, transitions, capped, max_preemptions)"""
     expanded = set()
@@ -266,7 +276,7 @@ def explore(body, check, preemption_bound=None, stateful=True, max_executions=No
         if max_executions is not None and stats['executions'] >= max_executions:
             stats['capped'] = True
             break
-        outcome, sched = run_once(body, prefix, horizon)
+        outcome, sched = run_once(body, prefix, horizon, fatal)
         stats['executions'] += 1
         stats['transitions'] += len(sched.points)
         choices = [p['chosen'] for p in sched.points]
